@@ -212,11 +212,18 @@ def sign(x):
     return rsign(A._num(x))
 
 
-def minimum(a, b):
+def _no_out(name, extra, kw):
+    if extra or kw:
+        raise OutOfReach('np.%s with out= / extra arguments' % name)
+
+
+def minimum(a, b, *extra, **kw):
+    _no_out('minimum', extra, kw)
     return elementwise(lambda x, y: rmin(A._num(x), A._num(y)), (a, b), 'real')
 
 
-def maximum(a, b):
+def maximum(a, b, *extra, **kw):
+    _no_out('maximum', extra, kw)
     return elementwise(lambda x, y: rmax(A._num(x), A._num(y)), (a, b), 'real')
 
 
@@ -461,9 +468,7 @@ def csr_array(arg, shape=None, dtype=None):
     if isinstance(arg, SymSparse):
         return arg.copy()
     data, (ii, jj) = arg
-    db, ib, jb = _triplet_blocks(data), _triplet_blocks(ii), _triplet_blocks(jj)
-    if not (len(db) == len(ib) == len(jb)):
-        raise OutOfReach('csr_array: triplet arrays have different block structures (%d,%d,%d)' % (len(db), len(ib), len(jb)))
+    db, ib, jb = _align_blocks([_triplet_blocks(data), _triplet_blocks(ii), _triplet_blocks(jj)])
     fams = []
     for d, i, j in zip(db, ib, jb):
         i2, j2, d2 = i.squeezed(), j.squeezed(), d.squeezed()
@@ -481,10 +486,52 @@ def csr_array(arg, shape=None, dtype=None):
 
         def mk(b):
             return (lambda p, b=b: b.fn(() if b.scalar else p))
+        if len(ref.shape) >= 1 and A._small_const(ref.shape, 32):
+            # short enumerated pieces (corner cells ...): one entry each, no index map to invert
+            import itertools as _it
+            dims_c = [I(x).const_value() for x in ref.shape]
+            for pc in _it.product(*[range(n) for n in dims_c]):
+                pi_ = tuple(I(x) for x in pc)
+                fams.append(Family((), (lambda p, f=mk(i2), pi_=pi_: f(pi_)), (lambda p, f=mk(j2), pi_=pi_: f(pi_)),
+                                   (lambda p, f=mk(d2), pi_=pi_: f(pi_))))
+            continue
         fams.append(Family(ref.shape, mk(i2), mk(j2), mk(d2)))
     if shape is None:
         raise OutOfReach('csr_array without shape')
     return SymSparse(_shape_arg(shape), fams)
+
+
+def _align_blocks(lists):
+    """bring the block lists of data / row / col to a common segmentation; a scalar (broadcast) block may be cut
+    into pieces matching the structured blocks of the other arrays"""
+    pos = [0] * len(lists)
+    rem = [None] * len(lists)
+    out = [[] for _ in lists]
+    while True:
+        done = [pos[i] >= len(lists[i]) for i in range(len(lists))]
+        if all(done):
+            break
+        if any(done):
+            raise ValueError('row, column, and data array must all be the same length')
+        cur = [lists[i][pos[i]] for i in range(len(lists))]
+        sizes = [(rem[i] if rem[i] is not None else cur[i].size) for i in range(len(lists))]
+        structured = [i for i in range(len(lists)) if not cur[i].scalar]
+        target = sizes[structured[0]] if structured else sizes[0]
+        for i in range(len(lists)):
+            b = cur[i]
+            if not b.scalar:
+                if not dims_equal(sizes[i], target):
+                    raise OutOfReach('csr_array: triplet arrays have different block structures (%s vs %s)' % (sizes[i], target))
+                out[i].append(b)
+                pos[i] += 1
+            else:
+                out[i].append(Block((target,), b.fn, b.kind, scalar=True))
+                if dims_equal(sizes[i], target):
+                    pos[i] += 1
+                    rem[i] = None
+                else:
+                    rem[i] = sizes[i] - target
+    return out
 
 
 def _triplet_blocks(x):
